@@ -259,8 +259,10 @@ BuildR(i, Hd, App, acc) == IF i = 0 THEN acc
 \* everything the harness compares, computed once per configuration.
 \* dyn: evaluate the dynamics quantities too; ud: integer speed derivatives per mobility (same shape as u);
 \* F: applied spatial force per body, in Ground, torque and force at the body origin (integers);
-\* q2, u2: a second set of coordinates and speeds per mobilizer -- the targets of the fitting operations
-Eval(dyn, ud, F, q2, u2) ==
+\* q2, u2: a second set of coordinates and speeds per mobilizer -- the targets of the fitting operations;
+\* tasks: a list of task frames [b, st, f, T]: body (0 = Ground, repeats allowed), station in the body frame, and an
+\* integer force f / torque T applied there (in Ground) for the transpose operators
+Eval(dyn, ud, F, q2, u2, tasks) ==
   LET X == TLCEval(Poses)
       Vu == TLCEval(Vels(X, u, ZeroU))
       Bu == BodyV(X, Vu)
@@ -287,6 +289,15 @@ Eval(dyn, ud, F, q2, u2) ==
       Hd == TLCEval([b \in 1..N |-> [f |-> FSa[b].f, t |-> VAdd(FSa[b].t, Cross(ComG(b, X), FSa[b].f))]])
       App == TLCEval([b \in 1..N |-> [f |-> Fb[b].f, t |-> VAdd(Fb[b].t, Cross(X[b].p, Fb[b].f))]])
       RO == TLCEval(BuildR(N, Hd, App, [b \in 1..N |-> WZero]))
+      \* task (station / frame) Jacobians: J*u is the velocity of the task frame; J'*F collects the task forces
+      NT == Len(tasks)
+      StG(k) == IF tasks[k].b = 0 THEN VZero ELSE MV(X[tasks[k].b].R, VI(tasks[k].st[1], tasks[k].st[2], tasks[k].st[3]))
+      TaskVel(B, k) == IF tasks[k].b = 0 THEN [w |-> VZero, v |-> VZero]
+                       ELSE [w |-> B[tasks[k].b].w, v |-> VAdd(B[tasks[k].b].v, Cross(B[tasks[k].b].w, StG(k)))]
+      TF(k) == VI(tasks[k].f[1], tasks[k].f[2], tasks[k].f[3])
+      TT(k) == VI(tasks[k].T[1], tasks[k].T[2], tasks[k].T[3])
+      JStF == TLCEval([j \in 1..ND |-> SumRS(TLCEval([k \in 1..NT |-> Dot(TaskVel(Cols[j], k).v, TF(k))]), NT)])
+      JFtF == TLCEval([j \in 1..ND |-> SumRS(TLCEval([k \in 1..NT |-> RAdd(Dot(TaskVel(Cols[j], k).w, TT(k)), Dot(TaskVel(Cols[j], k).v, TF(k)))]), NT)])
   IN [X |-> [b \in 1..N |-> [R |-> X[b].R, p |-> X[b].p]],
       V |-> [b \in 1..N |-> [w |-> Vu[b].w, v |-> Vu[b].v]],
       A0 |-> IF dyn THEN [b \in 1..N |-> [aw |-> Vu[b].aw, a |-> Vu[b].a]] ELSE <<>>,   \* accelerations when udot = 0 (Jdot u)
@@ -299,6 +310,11 @@ Eval(dyn, ud, F, q2, u2) ==
       reactF |-> IF dyn THEN [b \in 1..N |-> LET w == WShift(RO[b], X[b].pF) IN [t |-> VNeg(w.t), f |-> VNeg(w.f)]] ELSE <<>>,
       \* pose and velocity of M in F (expressed in F) for the coordinates q2 and speeds u2: what a mobilizer fitted to
       \* them must reproduce
+      taskV |-> [k \in 1..NT |-> TaskVel(Bu, k)],
+      taskA0 |-> IF dyn THEN [k \in 1..NT |-> IF tasks[k].b = 0 THEN [aw |-> VZero, a |-> VZero]
+                                ELSE LET B == Vu[tasks[k].b]  r == StG(k) IN
+                                     [aw |-> B.aw, a |-> VAdd(B.a, VAdd(Cross(B.aw, r), Cross(B.w, Cross(B.w, r))))]] ELSE <<>>,
+      JStF |-> JStF, JFtF |-> JFtF,
       fit |-> [b \in 1..N |-> LET D == Rel(desc[b].type, desc[b].rev, q2[b], u2[b], ZeroU[b]) IN [R |-> D.R, p |-> D.p, w |-> D.w, v |-> D.v]],
       P |-> SumVS(TLCEval([b \in 1..N |-> VScale(Mass(b), Bu[b].vc)]), N),
       L |-> SumVS(TLCEval([b \in 1..N |-> VAdd(MV(IcG(b, X), Bu[b].w), VScale(Mass(b), Cross(ComG(b, X), Bu[b].vc)))]), N),
